@@ -380,7 +380,8 @@ class bptk():
                 Deltatime. By default the dt of the scenarios is used, so that a session steps on the same time grid as a batch run.
 
         """
-        self.session_state = None
+        # there can only be one session at a time: end a session that is still open, so that its scenarios are reset too
+        self.end_session()
 
         scenarios = scenarios if isinstance(scenarios,list) else scenarios.split(",")
         scenario_managers = scenario_managers if isinstance(scenario_managers, list) else scenario_managers.split(",")
